@@ -173,14 +173,21 @@ def rule_tipcheck(ctx, rule='C03.TIPCHECK'):
               'advance_blocks keeps advancing after a reorg was requested', loc=ctx.loc(ab, ab.node))
     n += 1
     fp = ctx.func('bp', 'BlockProcessor.fetch_and_process_blocks')
-    ifs = [s for s in fp.own_nodes() if isinstance(s, ast.If) and norm(s.test) == 'self.reorg_count is not None']
+    # reorg_chain(self.reorg_count) runs exactly under `self.reorg_count is not None` (nested or behind a guard) and the
+    # request is cleared after it in the same block
     okf = False
-    if len(ifs) == 1:
-        b = ifs[0].body
-        rcs = calls_to(ctx, fp, ifs[0], ctx.func('bp', 'BlockProcessor.reorg_chain').key)
-        resets = [s for s in b if isinstance(s, ast.Assign) and ctx.res.canon(s.targets[0], fp) == 'self.reorg_count'
-                  and norm(s.value) == 'None']
-        okf = len(rcs) == 1 and norm(rcs[0].args[0]) == 'self.reorg_count' and len(resets) == 1 and resets[0].lineno > rcs[0].lineno
+    rcs = calls_to(ctx, fp, fp.node, ctx.func('bp', 'BlockProcessor.reorg_chain').key)
+    if len(rcs) == 1 and rcs[0].args and norm(rcs[0].args[0]) == 'self.reorg_count':
+        st_ = q.stmt(rcs[0])
+        loops_ = [p for p, _f in q.enclosing_chain(st_, fp.node) if isinstance(p, (ast.While, ast.For))]
+        conds = [(norm(t), b_) for t, b_, _p in pr.guard_conditions(st_, loops_[0] if loops_ else fp.node)]
+        requested = ('self.reorg_count is None', False) in conds
+        blk = getattr(st_, '_parent', None)
+        sibs = next((getattr(blk, fld) for fld in ('body', 'orelse', 'finalbody')
+                     if isinstance(getattr(blk, fld, None), list) and any(x is st_ for x in getattr(blk, fld))), [])
+        resets = [s for s in sibs if isinstance(s, ast.Assign) and ctx.res.canon(s.targets[0], fp) == 'self.reorg_count'
+                  and norm(s.value) == 'None' and s.lineno > st_.lineno]
+        okf = requested and len(conds) == 1 and len(resets) == 1
     ctx.check(okf, rule, ctx.key(fp, None, 'acts on request'),
               'the processing loop runs reorg_chain(self.reorg_count) and then clears the request',
               'the processing loop does not run reorg_chain on a request and clear it afterwards', loc=ctx.loc(fp, fp.node))
@@ -535,52 +542,58 @@ def rule_flushfirst(ctx):
 def rule_range(ctx):
     f = ctx.func('bp', 'BlockProcessor._calc_reorg_range')
     n = 0
-    rets = [s for s in f.own_nodes() if isinstance(s, ast.Return) and isinstance(s.value, ast.Tuple) and len(s.value.elts) == 2]
-    if len(rets) != 1:
-        raise AnalysisError(f'{f.key}: expected a single `return start, count`')
-    sv, cv = [norm(e) for e in rets[0].value.elts]
-    hdef = [s for s in f.own_nodes() if isinstance(s, ast.Assign) and isinstance(s.targets[0], ast.Name)
-            and ctx.res.canon(s.value, f) == 'self.state.height']
-    h_ok = len(hdef) == 1
-    hname = hdef[0].targets[0].id if h_ok else 'height'
-    top_ifs = [s for s in f.node.body if isinstance(s, ast.If)]
-    if len(top_ifs) != 1:
-        raise AnalysisError(f'{f.key}: expected one natural/forced branch')
-    br = top_ifs[0]
-    want = q.linear(ctx, f, ast.parse(f'{sv} + {cv} - {hname} - 1', mode='eval').body)
-    for body, label in ((br.body, 'natural reorg branch'), (br.orelse, 'forced reorg branch')):
-        last = None
-        for s in body:
-            if isinstance(s, ast.Assign) and isinstance(s.targets[0], ast.Name) and s.targets[0].id in (sv, cv):
-                last = s
-        ok = False
-        txt = 'no final assignment of start / count'
-        if last is not None:
+    # every way out of the function, with locals expressed in the inputs: (start, count) must satisfy
+    # start + count - 1 == self.state.height, whichever spelling (one return, early returns, conditional expressions)
+    from .. import paths as P
+    rets = P.returns(f.node)
+    if not rets or any(not (isinstance(r.value, ast.Tuple) and len(r.value.elts) == 2) for r in rets):
+        raise AnalysisError(f'{f.key}: expected every exit to be `return start, count`')
+    cp_ = f.params[1]
+    groups = {'natural reorg branch': [], 'forced reorg branch': []}
+    undecided = []
+    for r in rets:
+        d_ = P.decided(ctx, f, r, f'{cp_} < 0')
+        if d_ is None:
+            undecided.append(r)
+        else:
+            groups['natural reorg branch' if d_ else 'forced reorg branch'].append(r)
+    sv = None
+    for r in groups['natural reorg branch']:
+        for x in ast.walk(r.value.elts[0]):
+            if isinstance(x, ast.Name) and "'" in x.id:
+                sv = x.id.split("'")[0]
+    br = next((nd for r in rets for _t, _pol, nd in r.conds if isinstance(nd, ast.If)), f.node)
+    for label, rs in groups.items():
+        ok, txt = bool(rs), 'no such exit'
+        for r in rs:
             try:
-                lhs = {last.targets[0].id: 1, '': 0}
-                rhs = q.linear(None, None, last.value) if False else q.linear(ctx, f, last.value)
-                dlt = q.lin_sub(lhs, rhs)      # X - E == 0
-                # compare with start + count - height - 1 == 0 up to sign
-                neg = {k: -v for k, v in dlt.items()}
-                ok = q.lin_eq(dlt, want) or q.lin_eq(neg, want)
-                txt = f'{norm(last)}  =>  {q.lin_text(dlt)} = 0'
+                tot = q.linear(ctx, None, ast.BinOp(left=ast.BinOp(left=r.value.elts[0], op=ast.Add(), right=r.value.elts[1]), op=ast.Sub(),
+                                                    right=ast.parse('self.state.height + 1', mode='eval').body))
+                good = q.lin_eq(tot, {'': 0})
+                txt = f'start + count - 1 - height = {q.lin_text(tot)}'
             except q.NotLinear as e:
-                txt = f'not linear: {e}'
-            # it must be the last write of either variable on that branch
-            later = [s for s in body if s.lineno > last.lineno and isinstance(s, (ast.Assign, ast.AugAssign))
-                     and norm(s.targets[0] if isinstance(s, ast.Assign) else s.target) in (sv, cv)]
-            ok = ok and not later
-        ctx.check(ok and h_ok, 'C03.RANGE', ctx.key(f, None, label),
+                good, txt = False, f'not linear: {e}'
+            ok = ok and good
+            if not good:
+                break
+        ctx.check(ok, 'C03.RANGE', ctx.key(f, None, label),
                   f'{label}: start + count - 1 = height ({txt})',
                   f'{label}: the range does not end at the current height ({txt})', loc=ctx.loc(f, br))
         n += 1
-    cn = q.comparison_normal(ctx, f, br.test)
-    ctx.check(cn is not None and cn[1] == '>' and q.lin_eq(cn[0], {f.params[1]: -1, '': 0}), 'C03.RANGE',
-              ctx.key(f, br, 'branch selection'), 'count < 0 selects the natural-reorg search',
-              f'natural/forced selection is not `count < 0`: {norm(br.test)}', loc=ctx.loc(f, br))
+    ctx.check(not undecided, 'C03.RANGE',
+              ctx.key(f, None, 'branch selection'), 'count < 0 selects the natural-reorg search',
+              f'an exit is not selected by `count < 0`: {[" & ".join(r.cond_texts()) for r in undecided][:2]}', loc=ctx.loc(f, br))
     n += 1
+    # the natural branch is the one with the search loop, the forced branch has none
+    for label, rs in groups.items():
+        loops_on = [any(isinstance(st_, ast.While) for st_, _e in r.events) for r in rs]
+        want_loop = label.startswith('natural')
+        ctx.check(bool(rs) and all(l_ == want_loop for l_ in loops_on), 'C03.RANGE', ctx.key(f, None, label + ' search'),
+                  'the backwards search runs on the natural branch only',
+                  f'{label}: the search loop {"does not run" if want_loop else "runs"} on this branch', loc=ctx.loc(f, br))
+        n += 1
     # the backwards search stops at the first window whose leading hashes match: start moves to the first differing height
-    wl = [s for s in br.body if isinstance(s, ast.While)]
+    wl = [s for s in walk_own(f.node) if isinstance(s, ast.While)]
     ok, why = False, 'no search loop on the natural branch'
     if len(wl) == 1:
         brks = [b for b in walk_own(wl[0]) if isinstance(b, ast.Break)]
